@@ -135,6 +135,10 @@ def run(ctx):
                     i = int(np.argmax(np.abs(a1.sigma / want - 1)))
                     viol("sigma-linearity", f"sigma(m) is not linear in sigma_8 and the growth factor (filter {filt}): at m=1e{np.log10(a1.m[i]):.2f}, z={zb}, sigma_8={s8b}: sigma={a1.sigma[i]:.5g} but (s8/0.8)*D(z)*sigma(z=0, s8=0.8)={want[i]:.5g}",
                          {"filter_model": filt, "z": zb, "sigma_8": s8b, "Mmin": lo, "Mmax": hi})
+            # the normalised filter object carries the spectrum at the object's redshift: its sigma(R) is sigma(m), linear in the growth factor
+            nf_ = mf2.normalised_filter.sigma(mf2.radii)
+            if not np.allclose(nf_, mf2.sigma, rtol=1e-10):
+                viol("sigma-linearity/normalised_filter", f"normalised_filter.sigma(radii) at z=1 differs from sigma(m) = D(z) sigma_0(m) by up to {float(np.max(np.abs(nf_ / mf2.sigma - 1))):.3g} (filter {filt})", {"filter_model": filt, "z": 1.0})
             tt = Transfer(sigma_8=0.8, **{k: v for k, v in kw.items() if k in ("transfer_model", "lnk_min", "lnk_max", "dlnk")})
             if not np.allclose(mf.power, tt.power, rtol=1e-12):
                 viol("massfunction-vs-transfer-power", f"MassFunction(filter_model={filt}).power differs from Transfer.power for the same parameters")
